@@ -97,8 +97,11 @@ def constructs(F, fn, adt_short):
 
 
 def site_key(g, nid):
+    """(function answerable for the node, block): helper functions that do not exist in the reference tree count as
+    the function that calls them"""
     n = g.nodes[nid]
-    return (n.fn, n.bb)
+    home = g.insts[g.x.home(nid)].fn
+    return (home, n.bb if home == n.fn else '%s.bb%d' % (n.fn, n.bb))
 
 
 def index_sources(x, e):
@@ -547,7 +550,7 @@ def _who_may_write(ctx, root):
                     ctx.add(rule, 'T-WHO', c, ok,
                             ('write to %s.%s at a known site (%s)' % (adt, field, 'queue construction' if init and sk not in allowed else 'send entry point')) if ok else
                             '%s writes %s.%s (%s) outside the send entry point' % (short_fn(c), adt, field, g.x.describe(a.nid)),
-                            flavour=fl, where=g.where(a.nid), sub='%s.bb%d' % (short_fn(sk[0]), sk[1]))
+                            flavour=fl, where=g.where(a.nid), sub='%s.bb%s' % (short_fn(sk[0]), sk[1]))
     # W15 / W11: QueueState::Uni is built only at queue construction or on the guarded edge
     for name, f in F.fns.items():
         for bi, b in enumerate(f['blocks']):
